@@ -466,7 +466,8 @@ def _memo_policy(fn, what):
 
 
 def _no_hidden_state(fn, what, allowed_names):
-    for n in ast.walk(fn):
+    # the decorators are judged separately (_memo_policy / `decorator_list` tests)
+    for n in [x for part in [fn.args] + fn.body for x in ast.walk(part)]:
         if isinstance(n, (ast.Global, ast.Nonlocal, ast.Lambda, ast.FunctionDef, ast.ClassDef, ast.Yield, ast.Await)) \
                 and n is not fn:
             raise TranslateError('%s: unexpected %s' % (what, type(n).__name__))
